@@ -1,5 +1,5 @@
 //@unit channel_holder
-//@props C01 C02 C10 C11
+//@props C01 C02 C06 C10 C11
 // Contracts on the holder-commitment side of Channel (vls-core/src/channel.rs): disclosure of
 // per-commitment secrets, revocation, holder commitment validation and signing.
 use vstd::prelude::*;
@@ -100,7 +100,7 @@ impl Channel {
         r.is_err() ==> final(self).enforcement_state == old(self).enforcement_state,              //[C10.advance.err-frame]
 //@end
 
-//@fn vls-core/src/channel.rs :: impl Channel :: revoke_previous_holder_commitment props=C01,C02,C10,C11
+//@fn vls-core/src/channel.rs :: impl Channel :: revoke_previous_holder_commitment props=C01,C02,C06,C10,C11
     requires
         new_current_commitment_number + 1 < INITIAL_COMMITMENT_NUMBER,
         chan_wf(*old(self)),
@@ -117,6 +117,13 @@ impl Channel {
                 current_counterparty_signatures: Some(old(self).enforcement_state.next_holder_commit_info->Some_0.1),
                 next_holder_commit_info: None,
                 ..old(self).enforcement_state })),                                                 //[C01.revoke.advances-from-stored-info]
+        // C06: when the counter advances, the commitment that becomes current was recorded in the node's payment ledger
+        // under this channel's id (call marker, see prelude/channel_deps.rs)
+        final(self).enforcement_state.next_holder_commit_num != old(self).enforcement_state.next_holder_commit_num ==> ({
+            let info2 = old(self).enforcement_state.next_holder_commit_info->Some_0.0;
+            let es1 = EnforcementState { next_holder_commit_info: None, ..old(self).enforcement_state };
+            node_applied(old(self).id0, pay_in_spec(es1, Some(info2), None), pay_out_spec(es1, Some(info2), None), Some(info2))
+        }),                                                                                        //[C06.revoke.node-applied]
         // ... otherwise nothing changes at all
         final(self).enforcement_state.next_holder_commit_num == old(self).enforcement_state.next_holder_commit_num ==>
             final(self).enforcement_state == old(self).enforcement_state,                          //[C10.revoke.no-advance-no-change]
@@ -199,7 +206,7 @@ impl Channel {
 //@sub /&counterparty_htlc_sigs\[ndx\]/ => vx_index(counterparty_htlc_sigs, ndx)
 //@end
 
-//@fn vls-core/src/channel.rs :: impl Channel :: validate_holder_commitment_tx_phase2 props=C01,C02,C10,C11
+//@fn vls-core/src/channel.rs :: impl Channel :: validate_holder_commitment_tx_phase2 props=C01,C02,C06,C10,C11
     requires
         commitment_number <= INITIAL_COMMITMENT_NUMBER, chan_wf(*old(self)), hc_inv(*old(self)),
         htlcs_msat_fit(offered_htlcs@), htlcs_msat_fit(received_htlcs@),
@@ -216,6 +223,15 @@ impl Channel {
         r.is_err() ==> final(self).enforcement_state == old(self).enforcement_state
             && final(self).persisted == old(self).persisted,                                          //[C10.validate-holder.err-frame]
         r.is_ok() ==> final(self).persisted@ == final(self).enforcement_state,                        //[C11.validate-holder.persisted]
+        // C06: an accepted holder commitment was validated against the node's payment ledger under this channel's id, and
+        // what is stored as the successor is the commitment that was validated
+        r.is_ok() ==> exists|info2: CommitmentInfo2|
+            info2_built(info2, false, to_counterparty_value_sat, to_holder_value_sat, offered_htlcs@, received_htlcs@, feerate_per_kw)
+            && node_validated(old(self).id0, pay_in_spec(old(self).enforcement_state, Some(info2), None),
+                pay_out_spec(old(self).enforcement_state, Some(info2), None))                          //[C06.validate-holder.node-validated]
+            && (commitment_number == old(self).enforcement_state.next_holder_commit_num ==>
+                final(self).enforcement_state.next_holder_commit_info.is_some()
+                && final(self).enforcement_state.next_holder_commit_info->Some_0.0 == info2),            //[C06.validate-holder.stores-validated-info]
 //@proof after /let counterparty_signatures = CommitmentSignatures\(/
             proof {
                 assert(counterparty_signatures.1@ =~= counterparty_htlc_sigs@);
@@ -228,7 +244,7 @@ impl Channel {
         }
 //@end
 
-//@fn vls-core/src/channel.rs :: impl Channel :: make_validated_recomposed_holder_commitment_tx props=C01,C02
+//@fn vls-core/src/channel.rs :: impl Channel :: make_validated_recomposed_holder_commitment_tx props=C01,C02,C06
     requires
         commitment_number <= INITIAL_COMMITMENT_NUMBER, chan_wf(*self),
         htlcs_msat_fit(offered_htlcs@), htlcs_msat_fit(received_htlcs@),
@@ -240,6 +256,8 @@ impl Channel {
             && r->Ok_0.0 == holder_ctx_spec(self.keys, self.setup, commitment_number, *txkeys, feerate_per_kw,
                 r->Ok_0.1.to_broadcaster_value_sat, r->Ok_0.1.to_countersigner_value_sat,
                 oic_spec(r->Ok_0.1.offered_htlcs@, r->Ok_0.1.received_htlcs@)),                              //[C01.phase1.rebuilt-from-own-keys]
+        // the incoming summary handed on is that of this state with the validated info (C06 data flow)
+        r.is_ok() ==> r->Ok_0.2 == pay_in_spec(self.enforcement_state, Some(r->Ok_0.1), None),               //[C06.phase1.summary-of-validated-info]
         // ... and, under a strict filter, the supplied transaction is exactly that one
         r.is_ok() && vx_strict(T_policy_commitment) ==> ctx_built_tx(r->Ok_0.0) == *tx,                    //[C01.phase1.raw-equals-canonical]
         // what the validator guaranteed about the numbers (shared contract of validate_holder_commitment_tx)
@@ -255,7 +273,7 @@ impl Channel {
         }
 //@end
 
-//@fn vls-core/src/channel.rs :: impl Channel :: validate_holder_commitment_tx props=C01,C02,C10,C11
+//@fn vls-core/src/channel.rs :: impl Channel :: validate_holder_commitment_tx props=C01,C02,C06,C10,C11
     requires
         commitment_number <= INITIAL_COMMITMENT_NUMBER, chan_wf(*old(self)), hc_inv(*old(self)),
         htlcs_msat_fit(offered_htlcs@), htlcs_msat_fit(received_htlcs@),
@@ -271,6 +289,14 @@ impl Channel {
         r.is_err() ==> final(self).enforcement_state == old(self).enforcement_state
             && final(self).persisted == old(self).persisted,                                          //[C10.validate-holder-raw.err-frame]
         r.is_ok() ==> final(self).persisted@ == final(self).enforcement_state,                        //[C11.validate-holder-raw.persisted]
+        r.is_ok() ==> exists|info2: CommitmentInfo2|
+            !info2.is_counterparty_broadcaster && info2.feerate_per_kw == feerate_per_kw
+            && info2.offered_htlcs@.to_multiset() == offered_htlcs@.to_multiset() && info2.received_htlcs@.to_multiset() == received_htlcs@.to_multiset()
+            && node_validated(old(self).id0, pay_in_spec(old(self).enforcement_state, Some(info2), None),
+                pay_out_spec(old(self).enforcement_state, Some(info2), None))                          //[C06.validate-holder-raw.node-validated]
+            && (commitment_number == old(self).enforcement_state.next_holder_commit_num ==>
+                final(self).enforcement_state.next_holder_commit_info.is_some()
+                && final(self).enforcement_state.next_holder_commit_info->Some_0.0 == info2),            //[C06.validate-holder-raw.stores-validated-info]
 //@proof after /let counterparty_signatures = CommitmentSignatures\(/
             proof {
                 assert(counterparty_signatures.1@ =~= counterparty_htlc_sigs@);
